@@ -1046,6 +1046,10 @@ def gen_simple1_scenario(rng, tier, ending=None):
     linger = rng.choice([0, 0, 50, 1000])
     cfg = [(p, rng.random() < 0.8) for p in ps]
     ending = ending or rng.choice(["graceful", "graceful", "stop", "cancel", "double-stop", "stop-during-graceful", "double-graceful"])
+    if len(ps) >= 2 and ending in ("stop", "cancel", "double-stop") and rng.random() < 0.3:
+        # fewer handlers than inputs (a zero-share configuration: delivery is not guaranteed there -- the known finding -- but the bound
+        # on concurrent Handle calls, the stop behaviour and the goroutine accounting are); ended by Stop / cancel only
+        H = rng.randrange(1, len(ps))
     ops, nput = [], 0
     open_ = set(ps)
     for _ in range(rng.choice([6, 15, 30])):
